@@ -28,7 +28,13 @@ CONTROLS = {
         ("wrong cell Intersection/Positive", E, "        return (e.wind_cnt2 > 0);", "        return (e.wind_cnt2 >= 0);", "T.closed"),
         ("Union treats EvenOdd like Positive", E, "      default:\n        return (e.wind_cnt2 == 0);\n      }\n      break;\n\n    case ClipType::Difference:",
          "      default:\n        return (e.wind_cnt2 <= 0);\n      }\n      break;\n\n    case ClipType::Difference:", "T.closed"),
+        ("same-type winding update with the wrong sign", E, "          e2.wind_cnt -= e1.wind_dx;", "          e2.wind_cnt += e1.wind_dx;", "T.wind-crossing"),
+        ("inserted edge counts away from zero instead of towards it", E,
+         "            //otherwise keep 'reducing' the WC by 1 (ie towards 0) ...\n            e.wind_cnt = e2->wind_cnt + e.wind_dx;",
+         "            //otherwise keep 'reducing' the WC by 1 (ie towards 0) ...\n            e.wind_cnt = e2->wind_cnt - e.wind_dx;", "T.wind-insert"),
+        ("Union starts a contour where the other type already covers", E, "          if (e1Wc2 <= 0 && e2Wc2 <= 0)", "          if (e1Wc2 < 0 && e2Wc2 < 0)", "T.cross-dispatch"),
     ],
+    "C01x": [],
     "C03": [
         ("closed path built without cleaning (D engine)", E,
          "        CleanCollinear(outrec);\n        //closed paths should always return a Positive orientation\n        if (BuildPathD(",
